@@ -39,6 +39,23 @@ def canonicalTarget (cwd : List Seg) (t : Target) : Bool × List Seg :=
     | none => (true, clean t.segs)      -- outside the working directory: kept (`/` stays `/`)
   else (false, orDot (clean t.segs))
 
+/-- the first of the working directory's spellings that is a prefix of the target -/
+def stripAny : List (List Seg) → List Seg → Option (List Seg)
+  | [], _ => none
+  | c :: cs, t =>
+    match stripPrefix (clean c) t with
+    | some rest => some rest
+    | none => stripAny cs t
+
+/-- `canonical_target` with `working_directory_spellings()` (fix 4aea684): the working directory
+    as the kernel reports it and, when it names the same directory, the shell's `$PWD` -/
+def canonicalTargetL (cwds : List (List Seg)) (t : Target) : Bool × List Seg :=
+  if t.absolute then
+    match stripAny cwds (clean t.segs) with
+    | some rest => (false, orDot rest)
+    | none => (true, clean t.segs)
+  else (false, orDot (clean t.segs))
+
 /-- the walker yields `root.join(rel)` for every entry below the root (`rel = []` is the root) -/
 def walked (root : List Seg) (rel : List Seg) : List Seg := root ++ rel
 
